@@ -40,3 +40,21 @@ Proof.
   destruct (H out Ho) as [_ [_ [_ H4]]]. destruct (H4 Hcf) as [_ H5]. exact H5.
 Qed.
 Print Assumptions C07_edit_distance_join_exact.
+
+(* the MODEL pipeline (filter_tables stage of the API-level model, then the apply_matcher model
+   with the measure's raw similarity) against the MODEL join, no hypothesis about outputs:
+   Jaccard / cosine / Dice / overlap, first stage Size / Prefix / Position, any n_jobs *)
+From SSJ Require Import ApiJoinSpec ApiFilterTables ModelPipe.
+Theorem C07_model_pipeline_equals_join :
+  forall c k m outJ outP,
+  valid_join_case c -> j_entry c = EJoin m -> pipe_measure m -> k3 k -> j_with_score c = true ->
+  Z.of_nat (List.length (j_L c)) * Z.of_nat (List.length (j_R c)) < 2 ^ 31 ->
+  api_join c = Some outJ -> pipeline_model c k m = Some outP ->
+  pipeline_spec c outJ outP = true.
+Proof. exact C07_pipeline_model. Qed.
+Print Assumptions C07_model_pipeline_equals_join.
+Theorem C07_model_pipeline_total :
+  forall c k m, valid_join_case c -> j_entry c = EJoin m -> pipe_measure m -> k3 k ->
+  Z.of_nat (List.length (j_L c)) * Z.of_nat (List.length (j_R c)) < 2 ^ 31 ->
+  exists outP, pipeline_model c k m = Some outP.
+Proof. exact C07_pipeline_model_total. Qed.
